@@ -16,7 +16,7 @@ REQUIRED_CLASSES = {t: ["p<1e-9", "1e-9<=p<1e-3", "1e-3<=p<=0.999", "p>0.999", "
                         "load_scatter>>strength_scatter", "medians_orders_apart"]
                     for t in ("quick", "thorough")}
 REQUIRED_MONITORS = ["pf_norm_load==closed_form", "limit_load_scatter->0", "monotone_in_load_median", "monotone_in_strength_median",
-                     "0<=p<=1", "pf_arbitrary_load_converges", "pf_simple_load==cdf"]
+                     "0<=p<=1", "pf_arbitrary_load_converges", "pf_simple_load==cdf", "fixed_probes==closed_form"]
 RULE = ("seeded strength medians (10..2000) and scatters (0.01..0.3 decades), load medians chosen so that the closed-form failure "
         "probability Phi((lg L - lg S)/sqrt(sL^2+sS^2)) sweeps 1e-12 .. 1-1e-12, load scatters 0.002..0.5 (ratios over two "
         "orders of magnitude). pf_norm_load is compared with the closed form relatively (|got-exp| <= 1e-6 exp + 1e-15); "
@@ -75,6 +75,12 @@ def run_case(case, ctx):
     if abs(math.log10(L / S)) > 1:
         ctx.tag("medians_orders_apart")
     ctx.nontrivial(True)
+    # hidden state: another strength distribution is asked the same fixed questions first (self-contained replay)
+    foil = FailureProbability(S * 1.7, sS * 0.5)
+    probe_L, probe_s = float(S), 0.1
+    foil.pf_simple_load(probe_L), foil.pf_norm_load(probe_L, probe_s)
+    pr = [float(np.asarray(fp.pf_simple_load(probe_L))), float(fp.pf_norm_load(probe_L, probe_s))]
+    ctx.check("fixed_probes==closed_form", abs(pr[0] - 0.5) <= 1e-12 and abs(pr[1] - 0.5) <= 1e-6, observed=pr, expected=[0.5, 0.5])
     got = float(fp.pf_norm_load(L, sL))
     mech = ["c15_quad_default_absolute_tolerance"] if exp < 1e-7 else []
     ctx.check("pf_norm_load==closed_form", abs(got - exp) <= 1e-6 * exp + 1e-15, observed=got, expected=exp, tags=mech,
